@@ -58,7 +58,8 @@ def schedule_search(ctx, prop, bad, lean_failed):
 
 def run(ctx):
     facts, res, bad = schedule_part(ctx, "C03", PROGRAMS_QUICK)
-    histcheck.run(ctx, MODULE, WEIGHTS, TAGS, lean_extra=EXTRA)
+    histcheck.run(ctx, MODULE, WEIGHTS, TAGS, lean_extra=EXTRA,
+                  release_quick_filter=lambda h: any(op.split()[0] in ('writeSlot', 'getMut', 'tryUnique') for op in h))
     if bad and not any(v["kind"] == "miri" for v in ctx.violations) and not getattr(ctx, "sched_handled", False):
         schedule_search(ctx, "C03", bad, [])
 
